@@ -23,7 +23,7 @@ class C03(Prop):
     LONG_BIAS = 0.25
     BACKENDS = ("file", "file", "memory")
     WEIGHTS = {"page": 2, "pages": 1, "links": 6, "batch": 6, "again": 3, "create": 1, "delete": 1, "addprefix": 1,
-               "rmprefix": 0, "move": 0, "rule": 1, "unrule": 0, "reopen": 1, "clear": 1}
+               "rmprefix": 0, "move": 0, "rule": 1, "unrule": 0, "reopen": 1, "clear": 1, "recreate": 1}
     QUICK = (40, 18)
     THOROUGH = (200, 40)
     TECHNIQUE = ("stateful property-based testing (Hypothesis) against a ledger oracle; thorough tier adds coverage-guided "
